@@ -33,6 +33,7 @@ func genC04(seed uint64, tier string) *Case {
 			s.S, s.T, s.B = "event", []string{"a", "b"}[g.Intn(2)], []byte{byte(g.Intn(2))}
 		default:
 			s.S, s.T, s.K, s.F = "query", []string{"q", "r"}[g.Intn(2)], 1+g.Intn(3), g.Bool(0.25)
+			s.J = g.Intn(4) // 1: node filter that excludes the receiver; 2: tag filter that excludes it; 3: filter that selects it
 		}
 		c.Steps = append(c.Steps, s)
 	}
@@ -79,8 +80,17 @@ func c04Encode(s Step) []byte {
 		if s.F {
 			fl = qfNoBroadcast
 		}
+		var filters [][]byte
+		switch s.J {
+		case 1:
+			filters = [][]byte{wEncFilterNodes([]string{"somebody-else"})}
+		case 2:
+			filters = [][]byte{wEncFilterTag("role", "^nothing$")}
+		case 3:
+			filters = [][]byte{wEncFilterNodes([]string{"n0", "n1", "n2"})}
+		}
 		return wEnc(mtQuery, &wQuery{LTime: s.U, ID: uint32(s.K), Addr: net.ParseIP("10.0.9.9").To4(), Port: 7946, SourceNode: "src",
-			Flags: fl, Timeout: 10 * time.Second, Name: s.T, Payload: []byte("p")})
+			Filters: filters, Flags: fl, Timeout: 10 * time.Second, Name: s.T, Payload: []byte("p")})
 	}
 }
 
